@@ -90,6 +90,9 @@ func healthHook(point string, obj any, ok bool) {
 		}
 	case "proxy.dial":
 		rec.Add(vh.Ev{"e": "Dial", "ok": ok, "peer": l4proxy.VerifPeerAddr(obj)})
+		if !ok {
+			rec.Add(vh.Ev{"e": "DialFail", "peer": l4proxy.VerifPeerAddr(obj)})
+		}
 	case "proxy.fail.count":
 		rec.Add(vh.Ev{"e": "Fail", "peer": l4proxy.VerifPeerAddr(obj)})
 	case "proxy.fail.forget":
@@ -124,6 +127,9 @@ var windowScripts = map[int][]any{
 	2: {"f", "f", "f", "s", 150, "s", 220, "s", 100, "s"},
 	3: {"f", 200, "f", "s", 160, "s", 200, "s", 150, "s"},
 	4: {"f", "s", 420, "s", "f", "f", "s", 100, "s", 300, "s"},
+	// F<n>: n connections at once, all selecting the upstream before any of their dials has failed
+	5: {"F3", "s", 150, "s", 200, "s", 100, "s"},
+	6: {"f", "F3", "s", 200, "s", 160, "s"},
 }
 
 func runHealth(sc healthScen, idx int) (map[string]any, error) {
@@ -169,6 +175,21 @@ func runHealth(sc healthScen, idx int) (map[string]any, error) {
 				if v == "f" {
 					n++
 					h.Handle(dummyConn(n), nil)
+				} else if v[0] == 'F' {
+					var wg sync.WaitGroup
+					start := make(chan struct{})
+					for k := 0; k < int(v[1]-'0'); k++ {
+						n++
+						wg.Add(1)
+						go func(n int) {
+							defer wg.Done()
+							cx := dummyConn(n)
+							<-start
+							h.Handle(cx, nil)
+						}(n)
+					}
+					close(start)
+					wg.Wait()
 				} else {
 					f, _, _ := l4proxy.VerifHandlerCounters(h)
 					av := l4proxy.VerifUpstreamsAvailable(h)
@@ -181,7 +202,8 @@ func runHealth(sc healthScen, idx int) (map[string]any, error) {
 		ev := []vh.Ev{}
 		for _, e := range rec.Snapshot() {
 			switch e["e"] {
-			case "Fail":
+			case "DialFail":
+				// ground truth: a dial attempt failed (whether or not the handler counted it)
 				ev = append(ev, vh.Ev{"e": "Fail", "p": 1, "t": e["t"]})
 			case "Sample":
 				ev = append(ev, e)
@@ -238,6 +260,9 @@ func runHealth(sc healthScen, idx int) (map[string]any, error) {
 		return out, nil
 
 	case "limit":
+		if sc.Via == "partial_dial" {
+			return runPartialDial(sc, idx, rec, out)
+		}
 		type upL struct {
 			ln   net.Listener
 			addr string
@@ -344,10 +369,15 @@ func runHealth(sc healthScen, idx int) (map[string]any, error) {
 			case <-time.After(2 * time.Second):
 			}
 		}
+		time.Sleep(ms(10))
+		{
+			_, c, _ := l4proxy.VerifHandlerCounters(h)
+			rec.Add(vh.Ev{"e": "CSample", "conns": c})
+		}
 		ev := []vh.Ev{}
 		for _, e := range rec.Snapshot() {
 			switch e["e"] {
-			case "Open", "Refused", "End":
+			case "Open", "Refused", "End", "CSample":
 				ev = append(ev, e)
 			}
 		}
@@ -407,6 +437,110 @@ func runHealth(sc healthScen, idx int) (map[string]any, error) {
 		return out, nil
 	}
 	return nil, fmt.Errorf("unknown kind %q", sc.Kind)
+}
+
+// runPartialDial: one upstream with two dial addresses; the first accepts, the second refuses,
+// so the dial of the upstream fails half-way. Afterwards nothing may stay counted.
+func runPartialDial(sc healthScen, idx int, rec *vh.Recorder, out map[string]any) (map[string]any, error) {
+	lnA, err := net.Listen("tcp", "127.0.0.1:0")
+	if err != nil {
+		return nil, err
+	}
+	defer lnA.Close()
+	accept := func(ln net.Listener, u int) {
+		for {
+			c, err := ln.Accept()
+			if err != nil {
+				return
+			}
+			go func(c net.Conn) {
+				buf := make([]byte, 4)
+				c.SetReadDeadline(time.Now().Add(2 * time.Second))
+				if _, err := c.Read(buf); err == nil && u == 1 {
+					rec.Add(vh.Ev{"e": "Open", "c": int(buf[0]), "u": 1})
+				}
+				c.SetReadDeadline(time.Time{})
+				b := make([]byte, 64)
+				for {
+					if _, err := c.Read(b); err != nil {
+						c.Close()
+						return
+					}
+				}
+			}(c)
+		}
+	}
+	go accept(lnA, 1)
+	rp, err := newRefusedPort()
+	if err != nil {
+		return nil, err
+	}
+	addrB := rp.Addr()
+	h, done, err := provisionProxy(map[string]any{
+		"upstreams":      []map[string]any{{"dial": []string{lnA.Addr().String(), addrB}, "max_connections": sc.Max}},
+		"load_balancing": map[string]any{"selection": map[string]any{"policy": "first"}}})
+	if err != nil {
+		rp.Close()
+		return nil, err
+	}
+	defer done()
+	sample := func() {
+		_, c, _ := l4proxy.VerifHandlerCounters(h)
+		rec.Add(vh.Ev{"e": "CSample", "conns": c})
+	}
+	try := func(id int, hold time.Duration) {
+		a, b := net.Pipe()
+		cx := layer4.WrapConnection(b, nil, zap.NewNop())
+		d := make(chan struct{})
+		go func() {
+			defer close(d)
+			if err := h.Handle(cx, nil); err != nil {
+				rec.Add(vh.Ev{"e": "Refused", "c": id})
+			} else {
+				rec.Add(vh.Ev{"e": "End", "c": id})
+			}
+			b.Close()
+		}()
+		go a.Write([]byte{byte(id), 0, 0, 0})
+		time.Sleep(hold)
+		a.Close()
+		select {
+		case <-d:
+		case <-time.After(2 * time.Second):
+		}
+	}
+	for id := 1; id <= sc.Max; id++ {
+		try(id, ms(20))
+	}
+	sample()
+	// the second address starts accepting: the upstream must be usable again
+	rp.Close()
+	lnB, err := net.Listen("tcp", addrB)
+	if err != nil {
+		return nil, err
+	}
+	defer lnB.Close()
+	go accept(lnB, 2)
+	try(sc.Max+1, ms(60))
+	time.Sleep(ms(20))
+	sample()
+	ev := []vh.Ev{}
+	for _, e := range rec.Snapshot() {
+		switch e["e"] {
+		case "Open", "Refused", "End", "CSample":
+			ev = append(ev, e)
+		}
+	}
+	// the partial dials are refusals that the limit does not explain: L2 judges the last connection only
+	var kept []vh.Ev
+	for _, e := range ev {
+		if e["e"] == "Refused" && e["c"].(int) <= sc.Max {
+			continue
+		}
+		kept = append(kept, e)
+	}
+	out["max"], out["nups"], out["tol"], out["ev"] = sc.Max, 1, 0, kept
+	return out, nil
 }
 
 func init() {
